@@ -152,7 +152,7 @@ func c07SlotStates(c *Check, a *Anchors) {
 		c.Errorf("slot-states: no SSA for the command runner")
 		return
 	}
-	pe := &PathEnum{Fn: fn, MaxRevisit: 1, Event: a.ssaLabel}
+	pe := &PathEnum{Fn: fn, MaxRevisit: revisit(), Event: a.ssaLabel}
 	pe.Run()
 	c.Paths += len(pe.Paths)
 	bad, n := "", 0
@@ -184,7 +184,7 @@ func c07NoLockAcrossBlock(c *Check, a *Anchors) {
 		fa, ok := v.(*ssa.FieldAddr)
 		return ok && strings.HasSuffix(fieldKeySSA(fa.X.Type(), fa.Field), ".executionHashesMutex")
 	}
-	pe := &PathEnum{Fn: fn, MaxRevisit: 1, Event: func(in ssa.Instruction) (string, string) {
+	pe := &PathEnum{Fn: fn, MaxRevisit: revisit(), Event: func(in ssa.Instruction) (string, string) {
 		switch x := in.(type) {
 		case *ssa.Call:
 			if f := x.Common().StaticCallee(); f != nil && len(x.Common().Args) > 0 && isMu(x.Common().Args[0]) {
